@@ -53,7 +53,7 @@ func decodeScope(c *core.Ctx, l *core.Ledger) map[*ssa.Function]core.CGEdge {
 }
 
 func checkC03(c *core.Ctx, l *core.Ledger) {
-	l.Explanation = "Static clauses of C03 on the decode scope D (functions of protocol/binary, wire, internal/frame reachable from the decoding entry points over the callback-gated call graph; computed each run): (NEGLEN) every signed 32-bit length read from the wire is sign-checked on every path before it is used as a size, count, skip distance or loop bound (interprocedural field-based taint with dominance-by-edge sanitizers); (WIDE-ARITH) a count read from the wire is multiplied or shifted only in 64 bits, so count × width cannot wrap; (EXH-ERR) every switch over wire.Type in D handles all 11 codes and its default returns an error; (BOOL-CANON) ReadBool succeeds only on bytes 0 and 1 with the right value; (LOOP) every loop in D is counted against a loop-invariant bound or consumes input on every iteration; (REC) every recursive cycle in D passes a consuming read or is structural on an in-memory value; (PANIC) every potentially panicking SSA instruction in D (explicit panic, unchecked type assertion, non-constant index/slice, make with non-constant size, integer division) falls in a verified discharge class; (SKIP=READ) Skip consumes per wire type the same width sequence as ReadValue; (POOL-*) pooled readers/writers/lazy lists are completely re-initialised when borrowed or reset before they are returned, nothing touches them after Put, no double Put — so a decode cannot observe (or crash on) state left by an earlier one; (FULL-READ) the wrapped io.Reader is used only through full-read primitives (io.ReadFull/io.CopyN), so a read or skip of n bytes consumes exactly n under any segmentation. (EVAL-COMPLETE) wire.EvaluateValue — what 'forcing every lazily decoded container' means here — hands, per container wire type and on every success path, every Value-typed component (both key and value of each map item, each element of a set or list, the value of each struct field) to EvaluateValue again and looks at every error, so an invalid element cannot hide behind a successful decode. NOT decided: totality over all byte strings as such (nil dereference, stdlib, bytes.Buffer growth are assumed safe), stack depth on deeply nested input (depth is bounded by input length, not by a constant), re-encoding equality of consumed prefix."
+	l.Explanation = "Static clauses of C03 on the decode scope D (functions of protocol/binary, wire, internal/frame reachable from the decoding entry points over the callback-gated call graph; computed each run): (NEGLEN) every signed 32-bit length read from the wire is sign-checked on every path before it is used as a size, count, skip distance or loop bound (interprocedural field-based taint with dominance-by-edge sanitizers); (WIDE-ARITH) a count read from the wire is multiplied or shifted only in 64 bits, so count × width cannot wrap; (EXH-ERR) every switch over wire.Type in D handles all 11 codes and its default returns an error; (BOOL-CANON) ReadBool succeeds only on bytes 0 and 1 with the right value; (LOOP) every loop in D is counted against a loop-invariant bound or consumes input on every iteration; (REC) every recursive cycle in D passes a consuming read or is structural on an in-memory value; (PANIC) every potentially panicking SSA instruction in D (explicit panic, unchecked type assertion, non-constant index/slice, make with non-constant size, integer division) falls in a verified discharge class; (SKIP=READ) Skip consumes per wire type the same width sequence as ReadValue; (POOL-*) pooled readers/writers/lazy lists are completely re-initialised when borrowed or reset before they are returned, nothing touches them after Put, no double Put — so a decode cannot observe (or crash on) state left by an earlier one; (FULL-READ) the wrapped io.Reader is used only through full-read primitives (io.ReadFull/io.CopyN), so a read or skip of n bytes consumes exactly n under any segmentation. (EVAL-COMPLETE) wire.EvaluateValue — what 'forcing every lazily decoded container' means here — hands, per container wire type and on every success path, every Value-typed component (both key and value of each map item, each element of a set or list, the value of each struct field) to EvaluateValue again and looks at every error, so an invalid element cannot hide behind a successful decode. (ERR-KEEP) no error value is lost: none is assigned to a variable that is never read (an inner declaration shadowing the checked one), none is overwritten by the next loop iteration unseen, and no deferred function replaces the error result without regard to the error already there. NOT decided: totality over all byte strings as such (nil dereference, stdlib, bytes.Buffer growth are assumed safe), stack depth on deeply nested input (depth is bounded by input length, not by a constant), re-encoding equality of consumed prefix."
 	l.RuleText = "one obligation per (rule, construct) in D; non-trivial = a guard, path or table had to be examined"
 	l.Assumptions = []string{"io.Reader/io.ReaderAt implementations honour 0 <= n <= len(p)", "stack depth is bounded by input length (each recursion level consumes >= 1 byte), not by a constant", "nil dereference and stdlib internals are outside the ledger"}
 	d := decodeScope(c, l)
@@ -117,6 +117,7 @@ func checkC03(c *core.Ctx, l *core.Ledger) {
 	checkStreamReaderFullRead(c, l)
 	checkNoRawRead(c, l, "FULL-READ", []string{"protocol/binary"})
 	checkEvalComplete(c, l, "EVAL-COMPLETE")
+	checkErrKeep(c, l, "ERR-KEEP", []string{"protocol/binary", "wire", "internal/frame", "protocol"})
 }
 
 func fixedWidthCovered(c *core.Ctx) func(k *types.Const) bool {
